@@ -9,7 +9,7 @@ ops:
   ["impl", c, [ifaces]]   classImplements          ["only", c, [ifaces]]  classImplementsOnly
   ["first", c, i]         classImplementsFirst
   ["prov", arg]           providedBy(arg)          ["implby", arg]        implementedBy(arg)
-  ["reg", [req ifaces], prov, name, vid]           registry.register
+  ["reg", [req ifaces], prov, name, vid]           registry.register (name 0 is '', k is 'n<k>')
   ["adapt", via, [args], p, name]   via = "qa" queryAdapter | "hook" adapter_hook | "multi" queryMultiAdapter
   arg = ["obj", j] | ["super", C, j]
 
@@ -100,6 +100,10 @@ class World:
         return [1, kind, ident] + sorted(self.iface_no(i) for i in spec.flattened())
 
 
+def name_of(n):
+    return "" if n == 0 else "n%d" % n
+
+
 def run_op(w, op):
     k = op[0]
     if k == "impl":
@@ -119,12 +123,12 @@ def run_op(w, op):
     if k == "implby":
         return w.describe(implementedBy(w.arg(op[1])), op[1]), None
     if k == "reg":
-        w.registry.register([w.ifaces[i] for i in op[1]], w.ifaces[op[2]], "n%d" % op[3], Factory(op[4], w))
+        w.registry.register([w.ifaces[i] for i in op[1]], w.ifaces[op[2]], name_of(op[3]), Factory(op[4], w))
         return [], None
     if k == "adapt":
         default = object()
         args = [w.arg(a) for a in op[2]]
-        p, name = w.ifaces[op[3]], "n%d" % op[4]
+        p, name = w.ifaces[op[3]], name_of(op[4])
         if op[1] == "qa":
             r = w.registry.queryAdapter(args[0], p, name, default)
         elif op[1] == "hook":
